@@ -60,7 +60,7 @@ impl Prop {
         }
     }
     pub fn opts(self) -> Opts {
-        Opts { reloc: self == Prop::C20, touch: true }
+        Opts { reloc: self == Prop::C20, touch: true, strict_ctor: self == Prop::C12 }
     }
 
     /// capacities of the exhaustive single-step space
@@ -177,7 +177,9 @@ impl Prop {
                         if b - a < 2 {
                             continue;
                         }
-                        for script in [vec![Step::Fold], vec![Step::RFold], vec![Step::Next, Step::RFold], vec![Step::NextBack, Step::Fold], vec![Step::FindMid], vec![Step::RFindMid]] {
+                        for script in [vec![Step::Fold], vec![Step::RFold], vec![Step::Next, Step::RFold], vec![Step::NextBack, Step::Fold], vec![Step::FindMid], vec![Step::RFindMid],
+                                       vec![Step::Via(0)], vec![Step::Via(1)], vec![Step::Via(2)], vec![Step::Via(3)], vec![Step::Via(4)], vec![Step::Via(5)], vec![Step::Via(6)], vec![Step::Via(7)],
+                                       vec![Step::NextBack, Step::Via(0)], vec![Step::Next, Step::Via(1)]] {
                             v.push(Item { case: Case::simple(n, start, len, vec![Op::Drain(ge::canonical(a, b), script, End::Drop), Op::Views, Op::PushBack]), kinds: vec![FaultKind::Make] });
                         }
                     }
@@ -186,7 +188,17 @@ impl Prop {
             }
             Prop::C10 => plain(ge::c09(n, start, len, End::Forget)),
             Prop::C11 => plain(ge::c11(n, start, len)),
-            Prop::C12 => plain(ge::c12(n, start, len)),
+            Prop::C12 => {
+                let mut v = plain(ge::c12(n, start, len));
+                // "destroys the rest exactly once": one of the discarded elements has a destructor that panics
+                for m in 1..=(2 * n + 2) as u32 {
+                    if n <= crate::deq::FROM_ARRAY_MAX_N && m as usize <= crate::deq::FROM_ARRAY_MAX_M {
+                        v.push(Item { case: Case::simple(n, start, len, vec![Op::FromArray(m), Op::Views, Op::PushBack]), kinds: vec![FaultKind::Drop] });
+                    }
+                    v.push(Item { case: Case::simple(n, start, len, vec![Op::FromIter(m, Hint::Exact), Op::Views, Op::PushBack]), kinds: vec![FaultKind::Drop] });
+                }
+                v
+            }
             Prop::C20 => plain(ge::c20(n, start, len)),
         }
     }
